@@ -2,7 +2,7 @@
 
 Decides: in the three serializers of autoserde.rs (i) every read of the document (length, keys,
 get, text, ...) is made on the object being serialized (`self.obj`), in particular the size hint
-given to serialize_map / serialize_seq is `None` or the length of that same object; (ii) children
+given to serialize_map / serialize_seq is `Some(length of that same object)` (never `None`: maps and lists agree); (ii) children
 are wrapped with the object id returned by `get` for that entry, and AutoSerdeVal hands its own
 object id to the nested map / list serializer; (iii) AutoSerdeVal's dispatch covers all ObjType
 variants without a wildcard.
@@ -25,7 +25,7 @@ def find_ser(f, name):
 
 def run(ctx):
     ctx.level = "proof"
-    ctx.decides = ("every ReadDoc call in AutoSerdeMap/Seq/Val::serialize takes self.obj as its object; serialize_map/serialize_seq hints are None or ReadDoc::length(self.obj); "
+    ctx.decides = ("every ReadDoc call in AutoSerdeMap/Seq/Val::serialize takes self.obj as its object; serialize_map/serialize_seq hints are Some(ReadDoc::length(self.obj)); "
                    "child serializers are built with the ExId returned by get() (Map/Seq) or self.obj (Val); AutoSerdeVal matches every ObjType variant.")
     ctx.not_decided = "that scalar values, conflict winners and ordering in the output equal the document state (runtime values)."
     ctx.rule("R9-obj", "object argument of every ReadDoc call has origin (*self).obj")
@@ -52,7 +52,10 @@ def run(ctx):
                 pv = b.provenance(hint, through_calls=True)
                 aggs = {v for (a, v) in pv.aggs if a == "core::option::Option"}
                 if aggs == {"None"} or (not pv.calls and not aggs):
-                    ctx.ob("R9-hint", "%s|%s hint" % (name, fn.split("::")[-1]), True, t["sp"], "no size hint", nontrivial=False)
+                    # maps announce Some(length): a container that announces nothing is rejected by every serializer that needs the
+                    # length up front (sibling agreement of AutoSerdeMap and AutoSerdeSeq)
+                    ctx.ob("R9-hint", "%s|%s hint" % (name, fn.split("::")[-1]), False, t["sp"],
+                           "the container does not announce its length (None) although it iterates 0..length: length-prefixed serializers reject every document that contains it")
                     continue
                 lens = [(c, cb) for (c, cb) in pv.calls if c == READDOC + "length"]
                 ok = len(lens) >= 1
